@@ -196,6 +196,8 @@ pub struct Knobs {
     pub force_extra_at: Option<(usize, usize)>,
     /// the k-th emitted time uses the alternative encoding (all others standard)
     pub force_alt_time_at: Option<usize>,
+    /// encode a message checksum whose first wire byte is zero as a one-byte unsigned (`62 xx`)
+    pub narrow_crc: bool,
 }
 
 impl Knobs {
@@ -206,6 +208,7 @@ impl Knobs {
             width: WidthPolicy::Minimal,
             force_extra_at: None,
             force_alt_time_at: None,
+            narrow_crc: false,
         }
     }
     pub fn random(rng: &mut Rng) -> Knobs {
@@ -215,6 +218,7 @@ impl Knobs {
             width: *rng.pick(&[WidthPolicy::Minimal, WidthPolicy::Maximal, WidthPolicy::Random]),
             force_extra_at: None,
             force_alt_time_at: None,
+            narrow_crc: rng.chance(1, 2),
         }
     }
 }
@@ -227,6 +231,7 @@ pub struct Encoded {
     pub n_alt_time: usize,
     pub n_std_time: usize,
     pub max_tlf_size: usize,
+    pub n_narrow_crc: usize,
 }
 
 struct Enc<'a> {
@@ -241,6 +246,7 @@ struct Enc<'a> {
     n_alt_time: usize,
     n_std_time: usize,
     max_tlf_size: usize,
+    n_narrow_crc: usize,
 }
 
 fn fits_unsigned(v: u64, w: usize) -> bool {
@@ -503,15 +509,26 @@ impl<'a> Enc<'a> {
             msg: self.cur_msg,
         });
         self.n_tlf += 1;
-        self.out.push(0x63);
-        self.out.push((crc & 0xff) as u8);
-        self.out.push((crc >> 8) as u8);
+        let crc_size;
+        if self.knobs.narrow_crc && crc & 0xff == 0 {
+            // the transmitted number is (lo << 8) | hi; with lo == 0 it fits one byte
+            self.map.tlfs.last_mut().unwrap().data_len = 1;
+            self.out.push(0x62);
+            self.out.push((crc >> 8) as u8);
+            crc_size = 2;
+            self.n_narrow_crc += 1;
+        } else {
+            self.out.push(0x63);
+            self.out.push((crc & 0xff) as u8);
+            self.out.push((crc >> 8) as u8);
+            crc_size = 3;
+        }
         let end_off = self.out.len();
         self.out.push(0x00);
         self.map.msgs.push(MsgPos {
             start,
             crc_off,
-            crc_size: 3,
+            crc_size,
             end_off,
             end: self.out.len(),
             first_entry_idx,
@@ -534,6 +551,7 @@ pub fn encode_file(f: &AFile, knobs: &Knobs, rng: &mut Rng) -> Encoded {
         n_alt_time: 0,
         n_std_time: 0,
         max_tlf_size: 1,
+        n_narrow_crc: 0,
     };
     for m in &f.messages {
         e.message(m);
@@ -545,6 +563,7 @@ pub fn encode_file(f: &AFile, knobs: &Knobs, rng: &mut Rng) -> Encoded {
         n_alt_time: e.n_alt_time,
         n_std_time: e.n_std_time,
         max_tlf_size: e.max_tlf_size,
+        n_narrow_crc: e.n_narrow_crc,
     }
 }
 
@@ -557,6 +576,12 @@ pub fn encode_canonical(f: &AFile) -> Encoded {
 /// (which must have been adjusted if bytes were inserted / removed).
 pub fn fix_crcs(bytes: &mut [u8], map: &OffsetMap) {
     for m in &map.msgs {
+        if m.crc_size == 2 && m.crc_off + 2 <= bytes.len() && m.start <= m.crc_off {
+            // one-byte form: only the high byte can be adjusted (the low byte is implied zero)
+            let crc = crc16_x25(&bytes[m.start..m.crc_off]);
+            bytes[m.crc_off + 1] = (crc >> 8) as u8;
+            continue;
+        }
         if m.crc_off + 3 <= bytes.len() && m.start <= m.crc_off && m.crc_size == 3 {
             let crc = crc16_x25(&bytes[m.start..m.crc_off]);
             bytes[m.crc_off + 1] = (crc & 0xff) as u8;
